@@ -295,7 +295,7 @@ def view(outcome):
     v = {'lang': lang, 'os_item': (not tos) or (OS_NAME in tos)}
     if lang == 'scala':
         if b['package'] == '':
-            return {'panic': 'scala: package name must be provided'}      # Scala::begin_file refuses the empty package
+            return {'error': 'EScalaPackageMissing'}      # Scala::begin_file refuses the empty package: Err(InvalidInput) since the /repo fix of scala.rs:131
         v['package'] = b['package'] if '.' in b['package'] else '<no dot: no package line>'
     if lang in ('kotlin', 'go'):
         v['package'] = b['package']
@@ -328,8 +328,8 @@ def observe(lang, rc, err, text):
             return {'error': 'EConfigParse' if 'TOML parse error' in err else 'EConfigRead'}
         if 'File exists' in err:
             return {'error': 'EConfigExists'}
-        if rc == 101 and 'package name must be provided' in err:
-            return {'panic': 'scala: package name must be provided'}
+        if rc == 1 and 'typeshare failed to generate types: a package name must be provided for Scala' in err and 'panicked at' not in err:
+            return {'error': 'EScalaPackageMissing'}      # exit 1 + diagnostic (was panic!("package name must be provided"), exit 101: C07-scala.rs:131, fixed)
         return {'unrecognised_failure': rc, 'stderr': err[-400:]}
     if text is None:
         return {'unrecognised_failure': 'no output file'}
@@ -522,7 +522,7 @@ def run(chk):
         'toml is not modelled: Section/forall hypothesis toml_roundtrip (parse (ser c) then fill = c up to target_os); discharged empirically here on every emitted and every generated table',
         'clap is not modelled: the options record is what the check typed (short/long spellings, = and separate values are varied)',
         'kotlin/scala module_name never reaches generated code (the back ends do not read it): observable only through the TOML written by -g',
-        'Scala prints no package line for a package without a dot and panics on the empty package; the observation distinguishes only {empty, dotless, exact dotted value}',
+        'Scala prints no package line for a package without a dot and refuses the empty package (exit 1, "a package name must be provided for Scala ..": the /repo fix of the panic at scala.rs:131); the observation distinguishes only {empty, dotless, exact dotted value}',
         'the file system model has files only: a directory named typeshare.toml is "not a file"; parents of the -g target exist; no typeshare.toml above the temporary directory (checked)',
         'single-file output (-o) only; multi_file is carried by the model but not exercised',
     ]
@@ -775,8 +775,8 @@ def run(chk):
             chk.count(f'{c.kind}_{lang}')
             if 'tm' in obs:
                 chk.count(f'{c.kind}_{lang}_tables_observed')
-            if 'error' in obs or 'panic' in obs:
-                chk.count('outcome_' + str(obs.get('error') or 'scala_empty_package_panic'))
+            if 'error' in obs:
+                chk.count('outcome_' + str(obs.get('error')))
             if ok and c.kind == 'A' and lang == 'kotlin' and meta['cli_mask'] == 0b00110 and meta['file_mask'] == 0b00111:
                 chk.sample({'case': payload['options'], 'file': payload['files'], 'lang': lang, 'observed': obs})
             if ok and c.kind == 'B' and lang == 'swift' and c.cid % 97 == 0:
